@@ -288,4 +288,136 @@ theorem fixPos_constant_inside : ∀ (shape : List Nat) (p : List Int), p.length
             refine ⟨⟨by omega, by omega⟩, rfl⟩
           · rintro ⟨_, e⟩; exact e.symm
 
+theorem unravel_length : ∀ (s : List Nat) (i : Nat), (unravel s i).length = s.length := by
+  intro s
+  induction s with
+  | nil => intro i; simp [unravel]
+  | cons d ds ih => intro i; simp [unravel, ih]
+
+theorem unravelI_length (s : List Nat) (i : Nat) : (unravelI s i).length = s.length := by
+  simp [unravelI, unravel_length]
+
+theorem addPos_length : ∀ (a b : List Int), a.length = b.length → (addPos a b).length = a.length := by
+  intro a
+  induction a with
+  | nil => intro b _; cases b <;> simp [addPos]
+  | cons x xs ih =>
+    intro b hb
+    cases b with
+    | nil => simp at hb
+    | cons y ys => simp [addPos, ih ys (by simpa using hb)]
+
+theorem subPos_length : ∀ (a b : List Int), a.length = b.length → (subPos a b).length = a.length := by
+  intro a
+  induction a with
+  | nil => intro b _; cases b <;> simp [subPos]
+  | cons x xs ih =>
+    intro b hb
+    cases b with
+    | nil => simp at hb
+    | cons y ys => simp [subPos, ih ys (by simpa using hb)]
+
+theorem offsets_length (bshape : List Nat) (bc : Array Int) : ∀ k ∈ offsets bshape bc, k.length = bshape.length := by
+  intro k hk
+  unfold offsets at hk
+  simp only [List.mem_filterMap] at hk
+  obtain ⟨i, _, hi⟩ := hk
+  simp at hi
+  obtain ⟨_, hi⟩ := hi
+  subst hi
+  rw [subPos_length _ _ (by simp [unravelI_length, centreOf]), unravelI_length]
+
+theorem mem_neighbours_constant (shape : List Nat) (offs : List (List Int)) (x y : Nat)
+    (hk : ∀ k ∈ offs, k.length = shape.length) :
+    y ∈ neighbours .constant shape offs (unravelI shape x) ↔
+      ∃ k ∈ offs, inside shape (addPos (unravelI shape x) k) = true ∧ y = ravelI shape (addPos (unravelI shape x) k) := by
+  unfold neighbours
+  simp only [List.mem_filterMap, Option.map_eq_some_iff]
+  constructor
+  · rintro ⟨k, hko, q, hq, rfl⟩
+    have hl : (addPos (unravelI shape x) k).length = shape.length := by
+      rw [addPos_length _ _ (by rw [unravelI_length, hk k hko]), unravelI_length]
+    obtain ⟨h1, h2⟩ := (fixPos_constant_inside shape _ hl q).mp hq
+    exact ⟨k, hko, h1, by rw [h2]⟩
+  · rintro ⟨k, hko, h1, rfl⟩
+    have hl : (addPos (unravelI shape x) k).length = shape.length := by
+      rw [addPos_length _ _ (by rw [unravelI_length, hk k hko]), unravelI_length]
+    exact ⟨k, hko, _, (fixPos_constant_inside shape _ hl _).mpr ⟨h1, rfl⟩, rfl⟩
+
+theorem getD_map_toList (P : Array Int) (f : Int → Int) (i : Nat) (h : i < P.size) :
+    (P.toList.map f).getD i 0 = f (P.getD i (-1)) := by
+  simp [List.getD_eq_getElem?_getD, Array.getD_eq_getD_getElem?, h]
+
+theorem getD_mem_toList (P : Array Int) (i : Nat) (h : i < P.size) : P.getD i (-1) ∈ P.toList := by
+  simp [Array.getD_eq_getD_getElem?, h]
+
+/-- how the output of `labelModel` reads off the compressed buffer -/
+theorem label_output (m : Mode) (shape : List Nat) (data : List Int) (bshape : List Nat) (bc : Array Int) :
+    ∃ f : Int → Int, f (-1) = 0 ∧
+      (∀ i, i < data.length → (labelModel m shape data bshape bc).1.getD i 0 =
+          f ((parents m shape data (offsets bshape bc)).getD i (-1))) ∧
+      (∀ i, Fg data i → 1 ≤ (labelModel m shape data bshape bc).1.getD i 0) ∧
+      (∀ i j ri rj : Nat, Fg data i → Fg data j →
+          (parents m shape data (offsets bshape bc)).getD i (-1) = (ri : Int) →
+          (parents m shape data (offsets bshape bc)).getD j (-1) = (rj : Int) →
+          (labelModel m shape data bshape bc).1.getD i 0 = (labelModel m shape data bshape bc).1.getD j 0 → ri = rj) := by
+  obtain ⟨hinv, hflat⟩ := parents_spec m shape data (offsets bshape bc)
+  obtain ⟨f, hf, hbg, hpos, hinj⟩ := renumber_map (-1) (parents m shape data (offsets bshape bc)).toList
+  have hsz := hinv.size
+  have hget : ∀ i, i < data.length → (labelModel m shape data bshape bc).1.getD i 0 =
+      f ((parents m shape data (offsets bshape bc)).getD i (-1)) := by
+    intro i hi
+    unfold labelModel
+    rw [hf]
+    exact getD_map_toList _ f i (by rw [hsz]; exact hi)
+  refine ⟨f, hbg, hget, ?_, ?_⟩
+  · intro i fi
+    rw [hget i fi.1]
+    obtain ⟨p, hp⟩ := hinv.fg_value fi
+    refine hpos _ (getD_mem_toList _ i (by rw [hsz]; exact fi.1)) ?_
+    rw [hp]; omega
+  · intro i j ri rj fi fj hi hj hl
+    rw [hget i fi.1, hget j fj.1] at hl
+    have mi := getD_mem_toList (parents m shape data (offsets bshape bc)) i (by rw [hsz]; exact fi.1)
+    have mj := getD_mem_toList (parents m shape data (offsets bshape bc)) j (by rw [hsz]; exact fj.1)
+    have := hinj _ _ (Or.inl mi) (Or.inl mj) hl
+    rw [hi, hj] at this
+    exact Int.ofNat.inj this
+
+theorem labels_zero_iff (m : Mode) (shape : List Nat) (data : List Int) (bshape : List Nat) (bc : Array Int)
+    (i : Nat) (hi : i < data.length) :
+    (labelModel m shape data bshape bc).1.getD i 0 = 0 ↔ data.getD i 0 = 0 := by
+  obtain ⟨f, hbg, hget, hpos, _⟩ := label_output m shape data bshape bc
+  obtain ⟨hinv, _⟩ := parents_spec m shape data (offsets bshape bc)
+  by_cases fi : Fg data i
+  · have := hpos i fi
+    constructor
+    · intro h; omega
+    · intro h; exact absurd h fi.2
+  · have hz : data.getD i 0 = 0 := by
+      by_contra hc
+      exact fi ⟨hi, hc⟩
+    rw [hget i hi, hinv.bg i fi, hbg]
+    exact ⟨fun _ => hz, fun _ => rfl⟩
+
+theorem labels_same_iff (m : Mode) (shape : List Nat) (data : List Int) (bshape : List Nat) (bc : Array Int)
+    (i j : Nat) (fi : Fg data i) (fj : Fg data j) :
+    (labelModel m shape data bshape bc).1.getD i 0 = (labelModel m shape data bshape bc).1.getD j 0 ↔
+      EqvGen (Edge m shape (offsets bshape bc) data) i j := by
+  obtain ⟨f, _, hget, _, hinj⟩ := label_output m shape data bshape bc
+  obtain ⟨hinv, hflat⟩ := parents_spec m shape data (offsets bshape bc)
+  obtain ⟨ri, di, hri, hvi⟩ := hflat i fi
+  obtain ⟨rj, dj, hrj, hvj⟩ := hflat j fj
+  constructor
+  · intro hl
+    have e := hinj i j ri rj fi fj hvi hvj hl
+    subst e
+    exact (hinv.cls i j).mpr (Or.inr ⟨fi, fj, ri, di, dj, hri, hrj⟩)
+  · intro he
+    rcases (hinv.cls i j).mp he with e | ⟨_, _, r, da, db, ha, hb⟩
+    · subst e; rfl
+    · have e1 := (ha.det hri).1
+      have e2 := (hb.det hrj).1
+      rw [hget i fi.1, hget j fj.1, hvi, hvj, ← e1, ← e2]
+
 end Mahotas.C03
